@@ -4,7 +4,7 @@
    another type is refused by the handler BEFORE it validates or writes anything: the transaction has passed the ante
    handler, pays its fee, and leaves nothing else. Everything else is deliver_tx unchanged. *)
 From Coq Require Import List ZArith NArith Bool Lia.
-From PM Require Import Base.Bytes Store.KV Num.IntModel App.Model App.BankProofs App.TxProofs.
+From PM Require Import Base.Bytes Store.KV Num.IntModel App.Model App.BankProofs App.TxProofs App.IndexProofs App.QueueProofs.
 Import ListNotations.
 Local Open Scope Z_scope.
 
@@ -49,3 +49,63 @@ Theorem cp_refuses_other_key_types s t pk a amt s1 : t_msg t = MStake pk a amt -
   negb (msg_basic_ok (t_msg t)) || (t_fee t <? 0) || t_sig_empty t = false ->
   deliver_tx_cp true s t = DHandlerErr s1.
 Proof. intros E K A V G. unfold deliver_tx_cp. rewrite G, A, E. unfold refused_key. rewrite K, V. reflexivity. Qed.
+
+(* ---- whole histories under the restriction ------------------------------------------------------------------------------
+   The block cycle with deliver_tx_cp in the place of deliver_tx. Every invariant that the ordinary step preserves and that
+   the ante handler preserves is preserved by every history under the restriction: a refused stake ends in exactly the
+   ante handler's state, everything else is the ordinary step. *)
+Definition step_cp (r : bool) (s : state) (o : op) : option state :=
+  match o with
+  | OTx t => Some (dres_state (deliver_tx_cp r s t))
+  | _ => step s o
+  end.
+Definition run_cp (r : bool) (ops : list op) (s : state) : option state := fold_opt (step_cp r) ops s.
+
+Lemma deliver_tx_cp_cases r s t :
+  dres_state (deliver_tx_cp r s t) = dres_state (deliver_tx s t) \/ ante s t = Some (dres_state (deliver_tx_cp r s t)).
+Proof.
+  unfold deliver_tx_cp, deliver_tx. destruct (_ || _); [left; reflexivity|]. destruct (ante s t) as [s1|]; [|left; reflexivity].
+  destruct (refused_key r s1 (t_msg t)); [right; reflexivity|left; reflexivity].
+Qed.
+
+Section Lift.
+  Variable I : state -> Prop.
+  Hypothesis I_step : forall s o s', I s -> step s o = Some s' -> I s'.
+  Hypothesis I_ante : forall s t s', I s -> ante s t = Some s' -> I s'.
+  Lemma step_cp_inv r s o s' : I s -> step_cp r s o = Some s' -> I s'.
+  Proof.
+    intros H. destruct o as [h tm p vs es|t|a amt|a sev| |]; simpl.
+    - apply (I_step s (OBegin h tm p vs es)); exact H.
+    - intros [= <-]. destruct (deliver_tx_cp_cases r s t) as [E|E].
+      + rewrite E. apply (I_step s (OTx t)); [exact H|reflexivity].
+      + eapply I_ante; eauto.
+    - apply (I_step s (OAward a amt)); exact H.
+    - apply (I_step s (OBurn a sev)); exact H.
+    - apply (I_step s OEnd); exact H.
+    - apply (I_step s OCommit); exact H.
+  Qed.
+  Theorem run_cp_inv r ops : forall s s', I s -> run_cp r ops s = Some s' -> I s'.
+  Proof.
+    unfold run_cp. induction ops as [|o ops IH]; simpl; intros s s' H; [intros [= <-]; exact H|].
+    destruct (step_cp r s o) as [s1|] eqn:E; [|discriminate]. apply IH. eapply step_cp_inv; eauto.
+  Qed.
+End Lift.
+
+(* C02 under the restriction: supply = sum of all balances in every reachable state of every history *)
+Theorem run_cp_bank_ok r ops s s' : bank_ok s -> run_cp r ops s = Some s' -> bank_ok s'.
+Proof. apply (run_cp_inv bank_ok); [exact step_pres | intros x t x' H E; exact (ante_pres x t x' H E)]. Qed.
+(* C05/C06 under the restriction: the power index stays sound, every unstaking validator stays queued and every queued
+   address stays an unstaking validator, in every reachable state of every history *)
+Theorem run_cp_idx_sound r ops s s' : idx_sound s -> run_cp r ops s = Some s' -> idx_sound s'.
+Proof. apply (run_cp_inv idx_sound); [exact step_is | intros x t x' H E; exact (ante_is x t x' H E)]. Qed.
+Theorem run_cp_queue_ok r ops s s' : queue_ok s -> run_cp r ops s = Some s' -> queue_ok s'.
+Proof. apply (run_cp_inv queue_ok); [exact step_q | intros x t x' H E; exact (ante_q x t x' H E)]. Qed.
+Theorem run_cp_queue_sound r ops s s' : queue_sound s -> run_cp r ops s = Some s' -> queue_sound s'.
+Proof. apply (run_cp_inv queue_sound); [exact step_qs | intros x t x' H E; exact (ante_qs x t x' H E)]. Qed.
+(* without the restriction a history is the ordinary one *)
+Theorem run_cp_unrestricted ops : forall s, run_cp false ops s = run ops s.
+Proof.
+  unfold run_cp, run. induction ops as [|o ops IH]; intros s; [reflexivity|]. simpl.
+  assert (E : step_cp false s o = step s o) by (destruct o; simpl; try reflexivity; rewrite deliver_tx_cp_unrestricted; reflexivity).
+  rewrite E. destruct (step s o); [apply IH|reflexivity].
+Qed.
